@@ -108,6 +108,9 @@ func unhx(s string) string {
 	return string(b)
 }
 func hxs(ss []string) string {
+	if len(ss) == 0 {
+		return "."
+	}
 	o := make([]string, len(ss))
 	for i, s := range ss {
 		o[i] = hx(s)
